@@ -152,7 +152,10 @@ fn values_from(kt: &KeyType, side: &Side, alias: &str, payload: &str) -> String 
             if k.starts_with("CAST(NULL") || kt.sql == "TEXT" || kt.sql == "BOOLEAN" {
                 *first = format!("({k}, {rest}");
             } else {
-                *first = format!("(CAST({k} AS {}), {rest}", kt.sql);
+                // (an identity cast such as CAST(CAST('..' AS DATE) AS DATE) is rejected by the engine: typed literals stay as they are)
+                if !k.starts_with("CAST(") {
+                    *first = format!("(CAST({k} AS {}), {rest}", kt.sql);
+                }
             }
         }
     }
@@ -191,7 +194,7 @@ fn sides(kt: &KeyType, r: usize, probe: &mut Driver) -> Vec<Side> {
     // learn the engine values of the key literals once
     let mut keyvals: Vec<(String, Val)> = vec![(format!("CAST(NULL AS {})", kt.sql), Val::Null)];
     for l in kt.lits {
-        let v = match probe.q(&format!("SELECT CAST({l} AS {})", kt.sql)) {
+        let v = match probe.q(&if l.starts_with("CAST(") { format!("SELECT {l}") } else { format!("SELECT CAST({l} AS {})", kt.sql) }) {
             Outcome::Rows(r) if r.rows.len() == 1 => r.rows[0][0].clone(),
             _ => match probe.q(&format!("SELECT {l}")) {
                 Outcome::Rows(r) if r.rows.len() == 1 => r.rows[0][0].clone(),
